@@ -3,4 +3,5 @@ let table = [
   "retry", Retry.accept;
   "retry_kernel", RetryKernel.run_line;
   "mapfut", MapFut.accept;
+  "comb", Comb.accept;
 ]
